@@ -22,8 +22,9 @@ struct Stat { long forces = 0, couplings = 0, nothing = 0, prefiltered = 0, forb
 // nucleus node facing an epithelial face it is the outside (in front of the normal)
 static bool forbidden_is_positive_side(int ta, int tb) { return (ta == 0 && tb == 1) || (ta == 3 && tb == 0); }
 
-static std::string run_case(const Case& cs, Stat* st = nullptr) {
-    char buf[500]; const double cadh = CADH[cs.cut], crep = CREP[cs.cut], cmax = std::max(cadh, crep);
+struct Probe { vec3 Fn; bool coupled = false; bool ran = false; };
+static std::string run_case(const Case& cs, Stat* st = nullptr, const double* cut_override = nullptr, Probe* probe = nullptr) {
+    char buf[500]; const double cadh = cut_override ? cut_override[0] : CADH[cs.cut], crep = cut_override ? cut_override[1] : CREP[cs.cut], cmax = std::max(cadh, crep);
     sc::Mesh mb = cs.meshb == 0 ? sc::translated(sc::cube12(), -0.5, -0.5, -0.5) : sc::icosphere(1);
     cell_ptr B = sc::make_cell(mb, 1, make_type((short)cs.tb, cs.strength), true); for (unsigned i = 0; i < B->face_lst_.size(); i++) B->face_lst_[i].type_id_ = i % 3;
     B->update_all_face_normals_and_areas();
@@ -31,7 +32,7 @@ static std::string run_case(const Case& cs, Stat* st = nullptr) {
     vec3 base = cs.base == 0 ? (a + b + c) / 3. : cs.base == 1 ? (a + b) * 0.5 : a;
     // the relevant cut-off: repulsion on the forbidden side, adhesion on the allowed side
     const bool pos_forbidden = forbidden_is_positive_side(cs.ta, cs.tb); const double s = DEPTH[cs.depth]; const bool on_forbidden = pos_forbidden ? (s > 0) : (s < 0);
-    const double rel_cut = on_forbidden ? crep : cadh; const vec3 p = base + nf * (s * rel_cut);
+    const double rel_cut = cut_override ? cut_override[2] /* the placement of the node is that of the original case */ : (on_forbidden ? crep : cadh); const vec3 p = base + nf * (s * rel_cut);
     // cell A: a small tetrahedron whose node 0 sits at p and whose body extends away from the face on p's side
     const double sgn = s > 0 ? 1.0 : -1.0; vec3 u = std::fabs(nf.dx()) < 0.9 ? vec3(1, 0, 0).cross(nf).normalize() : vec3(0, 1, 0).cross(nf).normalize(); vec3 v = nf.cross(u);
     const double h = 0.3; vec3 q1 = p + nf * (sgn * h) + u * (0.2), q2 = p + nf * (sgn * h) + u * (-0.1) + v * 0.17, q3 = p + nf * (sgn * h) + u * (-0.1) + v * (-0.17);
@@ -56,6 +57,7 @@ static std::string run_case(const Case& cs, Stat* st = nullptr) {
 #elif CONTACT_MODEL_INDEX == 2
     if (!n0.coupled_nodes_map_.empty()) { coupled = true; auto it = n0.coupled_nodes_map_.begin(); if (it->first != 1 || it->second.first >= B->node_lst_.size()) err = "coupling-designates-wrong-cell-or-node"; else coupled_dist = (B->node_lst_[it->second.first].pos_ - p).norm(); }
 #endif
+    if (probe) { probe->Fn = Fn; probe->coupled = coupled; probe->ran = true; A->clear_data(); B->clear_data(); return ""; }
     const double fmag = Fn.norm();
     if (st) { if (fmag > 0) st->forces++; else if (coupled) st->couplings++; else st->nothing++; }
     if (err.empty() && fmag > 0) {
@@ -80,6 +82,9 @@ static std::string run_case(const Case& cs, Stat* st = nullptr) {
         { const double rs = B->get_cell_type()->face_types_[f.type_id_].repulsion_strength_, A2 = 0.5 * (b - a).cross(c - a).norm(), want = rs * A2 * d; if (err.empty() && std::fabs(fmag - want) > 1e-9 * want) { snprintf(buf, sizeof buf, "repulsion-is-not-strength-x-area-x-distance: |F| = %.9g, the face type's repulsion strength %.6g x area %.6g x distance %.6g = %.9g", fmag, rs, A2, d, want); err = buf; } }
 #endif
     }
+    // each cut-off governs the regime it is named after: within the relevant cut-off, doubling or quartering the OTHER cut-off changes neither the force on the node nor whether it is coupled
+    if (err.empty() && d < rel_cut * (1 - 1e-9) && d > 0) for (double factor : {2.0, 0.25}) { if (!err.empty()) break; const double other[3] = {on_forbidden ? factor * cadh : cadh, on_forbidden ? crep : factor * crep, rel_cut}; Probe pr; std::string e2 = run_case(cs, nullptr, other, &pr);
+        if (e2.empty() && pr.ran && ((pr.Fn - Fn).norm() > 1e-9 * (fmag + 1e-300) || pr.coupled != coupled)) { snprintf(buf, sizeof buf, "contact-force-depends-on-the-cutoff-of-the-other-regime: node on the %s side at distance %.6g (cut-off of its regime %.6g): force (%.6g,%.6g,%.6g) with cut-offs adhesion %.4g repulsion %.4g, (%.6g,%.6g,%.6g) with %.4g / %.4g", on_forbidden ? "forbidden" : "allowed", d, rel_cut, Fn.dx(), Fn.dy(), Fn.dz(), cadh, crep, pr.Fn.dx(), pr.Fn.dy(), pr.Fn.dz(), other[0], other[1]); err = buf; } }
     const double rep_strength = B->get_cell_type()->face_types_[f.type_id_].repulsion_strength_;
     const bool coupling_pair = (CONTACT_MODEL_INDEX != 0) && cs.ta == 0 && cs.tb == 0;
     if (err.empty() && on_forbidden && d < crep * (1 - 1e-9) && d > 0 && rep_strength > 0 && !coupling_pair && fmag == 0) { snprintf(buf, sizeof buf, "no-repulsion-for-a-node-on-the-forbidden-side-within-the-cutoff: depth %.6g, repulsion strength %.6g", d, rep_strength); err = buf; }
